@@ -10,6 +10,7 @@ For every tree whose derived nodes follow from their causes over a universe `U` 
 ids are consistent (`SharedConsistent`, which C03 proves of resolve's trees).
 -/
 import PubgrubProofs.ReportSound
+import PubgrubProofs.TreeLink
 
 namespace Pubgrub.C08
 open Pubgrub
@@ -59,5 +60,19 @@ theorem C08_terminates (t : DerivationTree P S V M) (hc : t.SharedConsistent) :
 
 theorem C08_external_top (e : External P S V M) : reportSteps (.external e) = .ok (.inl e) :=
   report_external_top e
+
+/-- C08 for every tree carried by a `NoSolution` result of `resolve`: the report is produced and every
+step is entailed by the premises it cites (the hypotheses `Sound` / `SharedConsistent` hold of
+resolve's trees by the store invariant) -/
+theorem C08_on_resolve_trees {Pr E : Type} [DecidableEq V] [LE Pr] [DecidableLE Pr]
+    [LawfulVersionSet S V]
+    (W : World P S V M) (hW : W.SetsValid) (debug : Bool) (fuel : Nat)
+    (root : P) (rv : V) (s : SolverState P S V M Pr) (tree : DerivationTree P S V M)
+    (h : Reachable (E := E) W debug fuel root rv (s, .noSolution tree)) :
+    (∃ r, reportSteps tree = .ok r) ∧
+    ∀ lines, reportSteps tree = .ok (.inr lines) →
+      ∀ i l, lines[i]? = some l → ∀ c, l.step.conclusion = some c →
+        Entails (fun _ _ => True) (stepPremises lines i l.step) c :=
+  noSolution_report_sound W hW debug fuel root rv s tree h
 
 end Pubgrub.C08
